@@ -239,6 +239,9 @@ func (x *Exec) callBuiltin(s *State, name string, call *ast.CallExpr) []*Term {
 		s.assume(Forall([]*Term{k}, Eq(Select(na, k),
 			Ite(And(Cmp("<=", off, k), Cmp("<", rel, n)), srcAt(rel), Select(old, k)))))
 		x.heapSet(s, memName(es), Store(mem, Field(dst, 0), na))
+		if es == SReal && x.eng.usedWf && src.S == SliceSort {
+			x.wfCopyRule(s, Select(mem, Field(src, 0)), Field(src, 1), Field(src, 2), na, off, n, Field(dst, 2))
+		}
 		return []*Term{n}
 	case "panic":
 		for _, a := range call.Args {
@@ -309,6 +312,9 @@ func (x *Exec) callAppend(s *State, call *ast.CallExpr) *Term {
 			Ite(And(Cmp("<=", ln, rel), Cmp("<", rel, Arith("+", ln, n))), srcAt(Arith("-", rel, ln)),
 				Ite(inplace, Select(old, k), Select(old, Arith("+", Field(sv, 1), k)))))))
 		x.heapSet(s, memName(es), Store(mem, blk, na))
+		if es == SReal && x.eng.usedWf && src.S == SliceSort {
+			x.wfConcatRule(s, old, Field(sv, 1), ln, Select(mem, Field(src, 0)), Field(src, 1), n, na, off)
+		}
 		return Mk(SliceSort, blk, off, Arith("+", ln, n), Ite(inplace, cp, newCap))
 	}
 	n := int64(len(call.Args) - 1)
@@ -337,6 +343,9 @@ func (x *Exec) callAppend(s *State, call *ast.CallExpr) *Term {
 		arr = Store(arr, Arith("+", Arith("+", off, ln), IntLit(int64(i))), v)
 	}
 	x.heapSet(s, memName(es), Store(mem, blk, arr))
+	if es == SReal && x.eng.usedWf {
+		x.wfAppendRule(s, old, Field(sv, 1), ln, arr, off, vals)
+	}
 	return Mk(SliceSort, blk, off, Arith("+", ln, IntLit(n)), Ite(inplace, cp, newCap))
 }
 
@@ -935,8 +944,22 @@ func (x *Exec) callModular(s *State, fi *FuncInfo, ct *Contract, recv *Term, arg
 	x.applyAssigns(s, fi, ct, env, sig, recv)
 	// results
 	var vals []*Term
+	pureVals := ct.HasAssign && len(ct.Assigns) == 0 && valueOnly(sig)
 	for i := 0; i < sig.Results().Len(); i++ {
-		vals = append(vals, x.havocValue(s, "r_"+fi.Obj.Name(), sig.Results().At(i).Type()))
+		rt := sig.Results().At(i).Type()
+		if pureVals {
+			// a function of its (value) arguments: the same call yields the same result
+			var as []*Term
+			if recv != nil {
+				as = append(as, recv)
+			}
+			as = append(as, args...)
+			v := x.uf(fmt.Sprintf("fn_%s_%s_%d", fi.Pkg.Types.Name(), sanitize(fi.Key), i), x.eng.tm.sortOf(rt), as...)
+			s.assume(x.typeInv(s, v, rt, 0))
+			vals = append(vals, v)
+			continue
+		}
+		vals = append(vals, x.havocValue(s, "r_"+fi.Obj.Name(), rt))
 	}
 	for _, en := range ct.Ensures {
 		s.assume(x.evalClauseIn(s, env, fi, en, vals, pre))
@@ -1176,4 +1199,37 @@ func (x *Exec) callSpecHelper(s *State, fn *types.Func, call *ast.CallExpr) []*T
 		return []*Term{Cmp(">=", v, x.heapGet(os, "$alloc", SInt))}
 	}
 	return nil
+}
+
+// valueOnly: receiver and parameters carry no references (results are then a function of the arguments)
+func valueOnly(sig *types.Signature) bool {
+	var ok func(t types.Type, d int) bool
+	ok = func(t types.Type, d int) bool {
+		if d > 4 {
+			return false
+		}
+		switch u := t.Underlying().(type) {
+		case *types.Basic:
+			return u.Kind() != types.UnsafePointer && u.Info()&types.IsString == 0
+		case *types.Struct:
+			for i := 0; i < u.NumFields(); i++ {
+				if !ok(u.Field(i).Type(), d+1) {
+					return false
+				}
+			}
+			return true
+		case *types.Array:
+			return ok(u.Elem(), d+1)
+		}
+		return false
+	}
+	if sig.Recv() != nil && !ok(sig.Recv().Type(), 0) {
+		return false
+	}
+	for i := 0; i < sig.Params().Len(); i++ {
+		if !ok(sig.Params().At(i).Type(), 0) {
+			return false
+		}
+	}
+	return true
 }
